@@ -133,11 +133,17 @@ def run(ctx, cfg):
 
 # ---- Mode B (DESIGN §2): concrete box, concrete objective-like prefix of P rounds, k symbolic rounds
 MODEB = {
-    "T_HOO": [(15, {}), (40, {})], "HCT": [(15, {}), (31, {"c": 0.1}), (63, {"c": 0.1})], "VHCT": [(7, {}), (15, {"c": 0.1})],
-    "DOO": [(12, {}), (25, {})], "SOO": [(12, {}), (30, {})], "StoSOO": [(12, {}), (30, {"k": 3})], "SequOOL": [(12, {"n": 40}), (20, {"n": 40}), (9, {"n": 12}), (15, {"n": 20})],
-    "StroquOOL": [(10, {"n": 200}), (14, {"n": 200})], "Zooming": [(16, {"nu": 3, "rho": 0.5}), (45, {"nu": 3, "rho": 0.5}), (40, {"nu": 1, "rho": 0.9})],
-    "POO": [(10, {"rhomax": 0.9}), (12, {"rhomax": 0.84}), (30, {"rhomax": 0.9}), (13, {"rhomax": 0.95})], "GPO": [(9, {"rhomax": 0.9}), (14, {"rhomax": 0.9}), (48, {"rhomax": 0.5})],
-    "PCT": [(9, {"rhomax": 0.9})], "VPCT": [(9, {"rhomax": 0.9})], "VROOM": [(3, {"n": 8, "h_max": 3})],
+    "T_HOO": [(15, {}), (40, {}), (24, {"nu": 0.3, "rho": 0.5}), (30, {"nu": 4, "rho": 0.5, "rounds": 1000}), (35, {"nu": 1, "rho": 0.75})],
+    "HCT": [(15, {}), (31, {"c": 0.1}), (63, {"c": 0.1}), (20, {"nu": 0.5, "rho": 0.6, "c": 0.2, "delta": 0.05}), (33, {"nu": 2, "rho": 0.75, "c": 0.1})],
+    "VHCT": [(7, {}), (15, {"c": 0.1}), (18, {"c": 0.1, "bound": 2}), (12, {"c": 0.15, "bound": 0.5, "nu": 2, "rho": 0.6})],
+    "DOO": [(12, {}), (25, {}), (14, {"delta": "user"})], "SOO": [(12, {}), (30, {}), (9, {"h_max": 3})],
+    "StoSOO": [(12, {}), (30, {"k": 3}), (11, {"k": 1, "h_max": 3}), (20, {"k": None, "n": 400})],
+    "SequOOL": [(12, {"n": 40}), (20, {"n": 40}), (9, {"n": 12}), (15, {"n": 20}), (24, {"n": 30})],
+    "StroquOOL": [(10, {"n": 200}), (14, {"n": 200}), (3, {"n": 100}), (30, {"n": 400})],
+    "Zooming": [(16, {"nu": 3, "rho": 0.5}), (45, {"nu": 3, "rho": 0.5}), (40, {"nu": 1, "rho": 0.9}), (29, {"nu": 1.6, "rho": 0.75}), (61, {"nu": 1, "rho": 0.9})],
+    "POO": [(10, {"rhomax": 0.9}), (12, {"rhomax": 0.84}), (30, {"rhomax": 0.9}), (13, {"rhomax": 0.95}), (78, {"rhomax": 0.9, "rounds": 80}), (20, {"rhomax": 0.86, "rounds": 22, "base": "HCT"})],
+    "GPO": [(9, {"rhomax": 0.9}), (14, {"rhomax": 0.9}), (48, {"rhomax": 0.5}), (21, {"rhomax": 0.8, "rounds": 129, "base": "HCT"})],
+    "PCT": [(9, {"rhomax": 0.9}), (30, {"rhomax": 0.7, "rounds": 101})], "VPCT": [(9, {"rhomax": 0.9})], "VROOM": [(3, {"n": 8, "h_max": 3})],
 }
 
 
@@ -149,13 +155,13 @@ def modeb_configs(tier, algos, tag="modeb", parts=("B", "K3", "RB")):
             for part in parts:
                 if algo == "VROOM" and part == "K3":
                     continue
-                for sd in ((0, 1) if part == "B" else (0,)):
+                for sd in (((0, 1) if q == 0 else (0, 1, 2, 3)) if part == "B" else (0,)):
                     k = 2 + q
                     if algo in ("VHCT", "VROOM"):
                         k = 1 + q
                     if algo == "Zooming" and part == "RB":
                         k = 1 + q
-                    pre = {"P": P, "k": k, "seed": sd, "peak": 0.3 if sd == 0 else 0.8, "noise": 0.25 if sd == 0 else 0.6, "negative": sd == 1}
+                    pre = {"P": P, "k": k, "seed": sd, "peak": (0.3, 0.8, 0.55, 0.1)[sd], "noise": (0.25, 0.6, 1.0, 0.0)[sd], "negative": sd == 1}
                     c = _cfg(algo, part, 1, P + k, dict(params), "-P%d+%d-s%d" % (P, k, sd))
                     c["name"] = tag + "-" + c["name"]
                     c["prefix"] = pre
